@@ -6,7 +6,7 @@
     the registry, reshape to the written view order.  [query_spec] is a
     comprehension over the map identifier -> component vector ([abs w]). *)
 From Coq Require Import Permutation.
-From Brood Require Import Base World Spec Kinds Tables Sched Query Subset SubsetM BaseFacts Inv StepInv Refine QueryFacts SubsetFacts.
+From Brood Require Import Base World Spec Kinds Tables Sched Query Subset SubsetM IterM BaseFacts Inv StepInv Refine QueryFacts SubsetFacts IterFacts.
 
 (** For any views (any kinds, any order, with or without the identifier, empty),
     any filter and every reachable world — empty archetypes and zero-sized
@@ -110,3 +110,25 @@ Example C03_entries_example :
                                    [VComp KOptRef 1; VComp KRef 2; VIdent; VComp KRef 0] ((7, 0%N), [11%N; 13%N])
   = Some [QOpt None; QVal 13%N; QId (7, 0%N); QVal 11%N].
 Proof. vm_compute. reflexivity. Qed.
+
+
+(** The result iterator ([query/result/iter.rs]): however it is consumed — any number of [next] calls (also
+    [nth], [find], [peek], the loop of a [for]) and then a fold-based consumer ([for_each], [count], [sum],
+    [last], [extend], [collect]) — every specified result is seen exactly once, in order.  That [fold] starts
+    with what is left of the archetype being drained is read off the source. *)
+Theorem C03_iterator_consumed : forall w vs f n, Inv w -> wf_views (w_n w) vs ->
+  exists it, iter_of_world w vs f = Some it /\
+    let '(xs, it') := nexts (list qitem) n it in
+    xs ++ fold_src (list qitem) it' = query_spec (abs w) vs f.
+Proof. exact world_iter_consumed. Qed.
+Check (C03_iterator_consumed : forall w vs f n, Inv w -> wf_views (w_n w) vs ->
+  exists it, iter_of_world w vs f = Some it /\
+    let '(xs, it') := nexts (list qitem) n it in
+    xs ++ fold_src (list qitem) it' = query_spec (abs w) vs f).
+Print Assumptions C03_iterator_consumed.
+
+Theorem C03_fold_must_start_with_the_current_archetype :
+  let it0 := mkIter nat None [(true, [1; 2; 3]); (false, [9]); (true, [4])] in
+  let '(xs, it') := nexts nat 1 it0 in
+  xs = [1] /\ fold_items nat false it' = [4] /\ fold_items nat true it' = [2; 3; 4].
+Proof. exact fold_skipping_current_loses. Qed.
